@@ -314,6 +314,10 @@ Proof.
   destruct (Z.leb_spec n 0); [lia|]. rewrite IH by lia. reflexivity.
 Qed.
 
+(* the read cap handed to io.LimitReader is the limit the bomb test compares with *)
+Lemma limit_reader_arg_is_limit : limit_reader_arg_go = c_maxUncompressedSize.
+Proof. reflexivity. Qed.
+
 Lemma gzip_bomb_spec n : gzip_bomb_go n = false <-> n < c_maxUncompressedSize.
 Proof. unfold gzip_bomb_go. rewrite Z.geb_leb, Z.leb_gt. reflexivity. Qed.
 
@@ -334,7 +338,7 @@ Section GzipProofs.
     intros L LZ. unfold decode_gzip, encode_gzip. rewrite <- ?app_assoc.
     rewrite w_consume_rt by exact gzip_id_range. cbn [bind].
     unfold wrapT. rewrite decode_bytes_rt by exact LZ. cbn [map_err bind].
-    destruct (gunzip_gzip x) as [H S]. unfold gzip_read. rewrite S, H. cbn [andb negb].
+    destruct (gunzip_gzip x) as [H S]. unfold gzip_read; rewrite ?limit_reader_arg_is_limit. rewrite S, H. cbn [andb negb].
     unfold gzip_outcome. cbn [negb].
     rewrite take_z_all by lia.
     assert (B : gzip_bomb_go (len x) = false) by (apply gzip_bomb_spec, L). rewrite B. reflexivity.
@@ -349,7 +353,7 @@ Section GzipAny.
   (* LimitReader: at most the limit is ever read out of the decompressor *)
   Lemma gzip_read_bounded buf : len (fst (gzip_read gz_stream buf)) <= c_maxUncompressedSize.
   Proof.
-    unfold gzip_read. destruct (gz_stream buf) as [stream serr]. cbn [fst].
+    unfold gzip_read; rewrite ?limit_reader_arg_is_limit. destruct (gz_stream buf) as [stream serr]. cbn [fst].
     assert (0 <= c_maxUncompressedSize) by (unfold c_maxUncompressedSize; lia).
     rewrite len_take_z by assumption. lia.
   Qed.
@@ -363,7 +367,7 @@ Section GzipAny.
     unfold decode_gzip.
     destruct (wrapT (consume_id c_GZIPTypeID b)) as [b1| |]; cbn [bind]; try discriminate.
     destruct (wrapT (decode_bytes b1)) as [[buf b2]| |]; cbn [bind]; try discriminate.
-    unfold gzip_read. destruct (gz_stream buf) as [stream serr] eqn:S.
+    unfold gzip_read; rewrite ?limit_reader_arg_is_limit. destruct (gz_stream buf) as [stream serr] eqn:S.
     unfold gzip_outcome. destruct (negb (gz_head buf)); cbn [bind]; try discriminate.
     destruct (serr && (len stream <? c_maxUncompressedSize)) eqn:Es; cbn [bind]; try discriminate.
     destruct (gzip_bomb_go (len (take_z c_maxUncompressedSize stream))) eqn:B; cbn [bind]; try discriminate.
@@ -394,7 +398,7 @@ Section GzipAny.
     unfold decode_gzip, decode_gzip_code.
     destruct (wrapT (consume_id c_GZIPTypeID b)) as [b1| |]; cbn [bind res_code]; try reflexivity.
     destruct (wrapT (decode_bytes b1)) as [[buf b2]| |]; cbn [bind res_code]; try reflexivity.
-    destruct (H buf) as [Hh Hs]. unfold gzip_read. rewrite Hs, Hh.
+    destruct (H buf) as [Hh Hs]. unfold gzip_read; rewrite ?limit_reader_arg_is_limit. rewrite Hs, Hh.
     unfold gzip_outcome, gzip_status. rewrite len_take_z by exact P.
     destruct (negb h); [reflexivity|]. destruct (serr && (len stream <? c_maxUncompressedSize)); [reflexivity|].
     destruct (gzip_bomb_go (Z.min c_maxUncompressedSize (len stream))); reflexivity.
